@@ -231,14 +231,14 @@ def unroll (c : Circuit) (n : Nat) (stateIO : List (Name × Name)) (pfx : String
       let (uc', _) ← addE uc { n := newIO, ty := t, output := c.isOut x }
       uc := uc'
       ioMap := ioMap.map (fun p => if p.1 == x then (p.1, p.2 ++ [newIO]) else p)
-    uc ← liftO (uc.addSubcircuit c ("unrolled_" ++ toString itr)
-      (io.map (fun x => (x, [x ++ "_" ++ pfx ++ "_" ++ toString itr]))))
+    let nm := fun (x : Name) (t : Nat) => ((ioMap.lookup x).getD []).getD t ""
+    uc ← liftO (uc.addSubcircuit c ("unrolled_" ++ toString itr) (io.map (fun x => (x, [nm x itr]))))
     if itr == 0 then
       for p in stateIO do
-        uc ← liftO (uc.setType [p.2 ++ "_" ++ pfx ++ "_0"] "input")
+        uc ← liftO (uc.setType [nm p.2 0] "input")
     else
       for p in stateIO do
-        uc ← liftO (uc.connect [p.1 ++ "_" ++ pfx ++ "_" ++ toString (itr - 1)] [p.2 ++ "_" ++ pfx ++ "_" ++ toString itr])
+        uc ← liftO (uc.connect [nm p.1 (itr - 1)] [nm p.2 itr])
   pure (uc, ioMap)
 
 end Tx
